@@ -947,7 +947,7 @@ NSL_DECL = {"int[2][3]": ("int[2][3] t;", "t[0][1] = 5; t[1][2] = 1; return t[1]
             "float[2][1][3]": ("float[2][1][3] t;", "t[0][0][2] = 5; return t[1][0][2];", "float", 0)}
 
 
-@family("VM.step.newvar", props=["C01", "C05", "C15"], functions=[EXEC, VMP + ".__CreateInstance", VMP + ".__CreatePrimitiveInstance", VMP + ".__CreateStructureInstance"],
+@family("VM.step.newvar", props=["C01", "C03", "C05", "C15", "C12"], functions=[EXEC, VMP + ".__CreateInstance", VMP + ".__CreatePrimitiveInstance", VMP + ".__CreateStructureInstance"],
         assumptions=["type shapes enumerated: scalars, vectors 2-4, 3x3/4x4 matrices, arrays of rank 1-3 with sizes 1-3, arrays of vectors/structs, nested structs"])
 def step_newvar(R):
     """NEW_VARIABLE binds the variable name and the instruction's reference to a zero value of the declared type with the index structure the
